@@ -20,6 +20,13 @@ class TensorInfoGenerator(Spec):
         self.callees = {'tfl_flatbuffer_utils.get_tensor_name': lambda E, p, a, kw, node: V('str', NAME(a[0].term))}
         self.invariants = {0: self.inv_tensors, 1: self.inv_producer}
     def pure_member(self, E, p, lst, x): return MEMBER(lst.term, x)
+    def on_yield(self, E, p):
+        """ghost definition (conservative: the invariant constrains consumer_pos_w(t2, .) only for records t2 yielded EARLIER): for the record
+        of the current tensor the position of reader j is the comprehension's own witness, shifted by one when the graph-output marker was put in front"""
+        S = self; t = p.env['$i0'].term; v = p.env['consumers'].kw.get('comp_witness')
+        if v is None: raise Unsupported('consumers is no longer built by the comprehension (stale contract)')
+        off = If(MEMBER(S.outs, t), 1, 0)
+        p.facts.append(Schematic(1, lambda j: S.cw(t, j) == v(j) + off, 'ghost:consumer-position-of-this-record'))
     def bind(self, E, p):
         h = p.heap; S = self
         for nme in list(FIELDS) + ['$len', '$items:int', '$items:ref', '$items:str']: h.arr(nme)
